@@ -421,6 +421,137 @@ def writeTourX (v : Veh) (acts : List RAct) (openEnd : Bool) (rs : List Reserved
     let t1 := insertBreaks v acts openEnd rs t0
     { t1 with stops := t1.stops.map tidyX }
 
+/-! ## vicinity clustering: `create_tour` with commute and parking (model only, tied by correspondence)
+
+The activities of an expanded cluster carry a commute (how the vehicle's crew walked from / back to the parking place). The
+fold is the same, with the commute branches of the writer: no driving to an activity reached by commuting, parking time at the
+first activity of a cluster, commuting time in the statistic, stops that stay open while the crew walks. -/
+
+structure CInfo where
+  loc : Nat
+  dist : Int
+  dur : Int
+deriving Repr
+
+structure CAct where
+  a : RAct
+  commute : Option (CInfo × CInfo)      -- forward, backward
+  /-- the leg (duration, distance) the transport provider reports to this activity from every location visited before -/
+  legsFrom : List (Nat × Int × Int) := []
+deriving Repr
+
+structure CActivity where
+  act : WActivity
+  hasCommute : Bool := false
+  fwd : Option (Nat × Int × Int × Int)  -- other end, distance, start, end
+  bwd : Option (Nat × Int × Int × Int)
+deriving Repr, BEq
+
+structure CStop where
+  loc : Nat
+  arrival : Int
+  departure : Int
+  distance : Int
+  load : List Int
+  parking : Option (Int × Int)
+  activities : List CActivity
+deriving Repr, BEq
+
+structure CStat where
+  s : WStat
+  commuting : Int
+  parking : Int
+deriving Repr, BEq
+
+structure CSt where
+  done : List CStop
+  cur : CStop
+  lastLoc : Nat
+  lastDep : Int
+  load : Load
+  stat : CStat
+deriving Repr
+
+def CSt.stops (s : CSt) : List CStop := s.done ++ [s.cur]
+
+def cinfoZero (c : CInfo) : Bool := c.dist == 0
+
+def stepActC (v : Veh) (parkingCfg : Int) (s : CSt) (c : CAct) : CSt :=
+  let a := c.a
+  let prevLoad : Load := if a.type.isSome then s.load else List.replicate s.load.length 0
+  let isBreak := actType a == "break"
+  let fwd : CInfo := (c.commute.map (·.1)).getD ⟨0, 0, 0⟩
+  let bwd : CInfo := (c.commute.map (·.2)).getD ⟨0, 0, 0⟩
+  let zeroDist := cinfoZero fwd && cinfoZero bwd
+  let commuting := fwd.dur + bwd.dur
+  -- the leg from where the VEHICLE is (`lastLoc`: the parking place while the crew walks)
+  let (legDur, legDist) : Int × Int := match c.legsFrom.find? (fun x => x.1 == s.lastLoc) with
+    | some x => (x.2.1, x.2.2)
+    | none => (a.legDur, a.legDist)
+  let driving := if zeroDist then legDur else 0
+  let transportCost := if zeroDist then legDist * v.cd + legDur * v.ct else commuting * v.cs
+  let parking := if s.lastLoc != a.loc && c.commute.isSome && zeroDist then parkingCfg else 0
+  let activityArrival := parking + a.arr + fwd.dur
+  let serviceStart := max activityArrival a.tws
+  let waiting := serviceStart - activityArrival
+  let serving := a.dur - parking
+  let serviceEnd := serviceStart + serving
+  let totalCost := a.dur * v.cs + transportCost + waiting * v.cw
+  let distance := s.stat.s.distance + legDist - fwd.dist
+  let isNewStop := match c.commute with
+    | some _ => s.lastLoc != a.loc && zeroDist
+    | none => s.lastLoc != a.loc
+  let (done, cur) : List CStop × CStop :=
+    if isNewStop then
+      (s.done ++ [s.cur], { loc := a.loc, arrival := a.arr, departure := a.dep, distance := distance, load := asVec prevLoad,
+                            parking := if parking > 0 then some (a.arr, a.arr + parking) else none, activities := [] })
+    else (s.done, s.cur)
+  let load := calcLoad prevLoad a
+  let leg (i : CInfo) (t : Int) : Option (Nat × Int × Int × Int) := if cinfoZero i then none else some (i.loc, i.dist, t, t + i.dur)
+  let wact : WActivity := { jobId := actJobId a, type := actType a, loc := some a.loc, time := some (serviceStart, serviceEnd), tag := actTag a }
+  let cact : CActivity :=
+    { act := wact, hasCommute := c.commute.isSome, fwd := c.commute.bind (fun _ => leg fwd a.arr), bwd := c.commute.bind (fun _ => leg bwd serviceEnd) }
+  let cur' : CStop := { cur with departure := a.dep, load := asVec load, activities := cur.activities ++ [cact] }
+  let endLoc := if cinfoZero bwd then a.loc else cur'.loc
+  { done := done, cur := cur', lastLoc := endLoc, lastDep := a.dep, load := load,
+    stat := { s := { cost := s.stat.s.cost + totalCost, distance := distance, duration := s.stat.s.duration + (a.dep - s.lastDep),
+                     driving := s.stat.s.driving + driving, serving := s.stat.s.serving + (if isBreak then 0 else serving),
+                     waiting := s.stat.s.waiting + waiting, breakT := s.stat.s.breakT + (if isBreak then serving else 0) },
+              commuting := s.stat.commuting + commuting, parking := s.stat.parking + parking } }
+
+def stepSegC (v : Veh) (pk : Int) (s : CSt) (seg : List CAct) : CSt :=
+  let s1 := seg.foldl (stepActC v pk) { s with load := sumD0 (seg.map (·.a)) s.load }
+  { s1 with load := lsub s1.load (sumP0 (seg.map (·.a))) }
+
+def initStC (start : RAct) (next : Option RAct) (seg : List RAct) : CSt :=
+  let s0 := initSt start next seg
+  { done := [], cur := { loc := s0.cur.loc, arrival := s0.cur.arrival, departure := s0.cur.departure, distance := 0, load := s0.cur.load,
+                         parking := none, activities := s0.cur.activities.map (fun a => { act := a, hasCommute := false, fwd := none, bwd := none }) },
+    lastLoc := s0.lastLoc, lastDep := s0.lastDep, load := s0.load, stat := ⟨WStat.zero, 0, 0⟩ }
+
+def tidyC (s : CStop) : CStop :=
+  match s.activities with
+  | [c] =>
+    let a := c.act
+    let sameSchedule := match a.time with | none => true | some t => s.arrival == t.1
+    let sameLoc := match a.loc with | none => true | some l => l == s.loc
+    { s with activities := [{ c with act := { a with time := if sameSchedule then none else a.time, loc := if sameLoc then none else a.loc } }] }
+  | _ => s
+
+def writeTourC (v : Veh) (pk : Int) (acts : List CAct) : Option (List CStop × CStat) :=
+  match acts with
+  | [] => none
+  | start :: rest =>
+    match cutBefore (fun c => isReload c.a) (start :: rest) with
+    | [] => none
+    | first :: later =>
+      let seg0 := first.drop 1
+      let s0 := initStC start.a (rest.head?.map (·.a)) (seg0.map (·.a))
+      let s1 := seg0.foldl (stepActC v pk) s0
+      let s1 := { s1 with load := lsub s1.load (sumP0 (first.map (·.a))) }
+      let s := later.foldl (stepSegC v pk) s1
+      some (s.stops.map tidyC, { s.stat with s := { s.stat.s with cost := s.stat.s.cost + v.fixed } })
+
 /-! ## tours with required breaks (reserved times): clauses on the written tour only
 
 `insert_reserved_times_as_breaks` (break_writer.rs) is not modelled; a tour of a vehicle with a required break is judged by what
